@@ -1992,6 +1992,7 @@ int user_parser (char *buff) {
   char *user_verb = 0;
   int where;
   int save_illegal_sentence_action;
+  funptr_t *verb_funp;
 
   for (p = buff + strlen (buff) - 1; p >= buff; p--)
     {
@@ -2095,6 +2096,17 @@ int user_parser (char *buff) {
        */
       where = (current_object ? ORIGIN_EFUN : ORIGIN_DRIVER);
 
+      /* The sentence holds the only reference to its function pointer, and the verb
+       * function may remove the sentence (remove_action(), destruct(), moving away)
+       * while it runs. A stack slot below the arguments keeps the function pointer
+       * alive until the call has returned or an error has unwound the stack. */
+      verb_funp = (s->flags & V_FUNCTION) ? s->function.f : 0;
+      if (verb_funp)
+        {
+          STACK_CHECK (1);
+          push_funp (verb_funp);
+        }
+
       /* Push command args FIRST (correct LPC order) */
       if (s->flags & V_NOSPACE)
         copy_and_push_string (&buff[strlen (s->verb)]);
@@ -2115,8 +2127,11 @@ int user_parser (char *buff) {
         }
 
       /* Call function with all args */
-      if (s->flags & V_FUNCTION)
-        ret = call_function_pointer (s->function.f, num_args);
+      if (verb_funp)
+        {
+          ret = call_function_pointer (verb_funp, num_args);
+          pop_stack ();		/* the reference taken above; ret is apply_ret_value */
+        }
       else
         {
           if (s->function.s[0] == APPLY___INIT_SPECIAL_CHAR)
